@@ -65,10 +65,12 @@ let run_rbs every ops =
   Buffer.contents out
 
 let run_lyds ty place every ops =
-  ignore ty; ignore place;
+  ignore ty;
   let ops = split_ops ops in
   let nops = List.length ops in
   let s = ref { sibs = []; rbt = None } and pool = ref [] and next = ref 0 in
+  let src = ref { sibs = []; rbt = None } in
+  let after = String.length place > 1 && place.[1] = '2' in
   let out = Buffer.create 1024 in
   let rec remove_at i l = match l with [] -> [] | y :: r -> if i = 0 then r else y :: remove_at (i - 1) r in
   (try
@@ -104,6 +106,38 @@ let run_lyds ty place every ops =
               pool := remove_at a !pool;
               (match lyds_insert elt_cmp elt_ideq !s x carries with None -> raise Null_deref | Some s' -> s := s'; "+")
         | 'q' -> if List.exists (fun (k, _) -> int_of_z k = a) !s.sibs then "1" else "0"
+        | 'c' ->
+            let x = mk_elt a !next in
+            incr next;
+            (match lyds_insert elt_cmp elt_ideq !src x false with None -> raise Null_deref | Some s' -> src := s'; "+")
+        | 'C' ->
+            let x = mk_elt a !next in
+            incr next;
+            src := lyds_append !src x; "+"
+        | 'p' ->
+            if !src.sibs = [] then "x"
+            else begin
+              (* the duplicates get their identities in source order *)
+              let xs = List.map (fun (k, _) -> let x = (k, n_of_int !next) in incr next; x) !src.sibs in
+              let src_meta = !src.rbt <> None in
+              let r =
+                match a with
+                | 0 | 2 -> lyds_dup elt_cmp elt_ideq true after src_meta !s xs
+                | 1 | 4 -> Some (lyds_dup_nolyds src_meta !s xs)
+                | _ ->
+                    (* lyd_dup_single of each source instance: every one is inserted by the default path *)
+                    let first = ref true in
+                    List.fold_left (fun acc x ->
+                      match acc with
+                      | None -> None
+                      | Some st ->
+                          (match lyds_insert elt_cmp elt_ideq st x false with
+                           | None -> None
+                           | Some st' ->
+                               let st' = if !first then dup_first_meta src_meta st st' else st' in
+                               first := false; Some st')) (Some !s) xs in
+              match r with None -> raise Null_deref | Some s' -> s := s'; "+"
+            end
         | _ -> "?" in
       Buffer.add_string out res;
       Buffer.add_char out '/';
@@ -122,7 +156,8 @@ let run_lyds ty place every ops =
       Buffer.add_string out
         (match !s.rbt with
          | None -> "ok"
-         | Some t -> if rb_check elt_cmp t && inorder t = !s.sibs then "ok" else "MODEL-INV")) ops
+         | Some Leaf -> "ok"
+         | Some t -> if not (rb_check elt_cmp t) then "MODEL-INV" else if inorder t = !s.sibs then "ok" else "S")) ops
   with Null_deref -> Buffer.add_string out "NULL-DEREF");
   Buffer.contents out
 
